@@ -148,6 +148,11 @@ type Rewriter interface {
 	Rewrite(line string) string
 }
 
+// PostRewriter is implemented by runners whose op line is completed by observations made DURING the call (clock readings, cache content)
+type PostRewriter interface {
+	LastLine() string
+}
+
 type histResult struct {
 	ops   []string
 	out   []string
@@ -184,6 +189,11 @@ func runHistory(comp Component, idx int, h []string) (res histResult) {
 		}
 		res.ops = append(res.ops, line)
 		o := r.Exec(line)
+		if pr, ok := r.(PostRewriter); ok {
+			if l := pr.LastLine(); l != "" {
+				res.ops[len(res.ops)-1] = l
+			}
+		}
 		res.out = append(res.out, o)
 		for _, v := range r.Violations() {
 			v.History = idx
